@@ -84,6 +84,12 @@ def main():
                   lambda x: x.__setitem__("maxSeg", 0 if x["maxSeg"] != 0 else -1)))
     cases.append(("exact re-used Instance.ef (old normalisation)", "exact", rnd.choice(idx(ex, lambda i, x: usable(ex)(i, x) and x["reuse"] and x["change"] == "normalisation")),
                   lambda x: x.__setitem__("ef", [0 if e else -1 for e in x["ef"]])))
+    cases.append(("exact Scale.bl[v] +1 (image scale: one bit differs from the unscaled step)", "exact", rnd.choice(idx(ex, lambda i, x: x["e"] == "Scale" and x["ki"] != 0 and max(x["bh"]) > 0)),
+                  bump("bl", 1, lambda y: y["bh"].index(max(y["bh"])))))
+    cases.append(("exact Scale.bh[v] +128 (data scale: exponent off by one)", "exact", rnd.choice(idx(ex, lambda i, x: x["e"] == "Scale" and x["kd"] != 0 and max(x["bh"]) > 0)),
+                  bump("bh", 128, lambda y: y["bh"].index(max(y["bh"])))))
+    cases.append(("exact Scale.kd +1", "exact", rnd.choice(idx(ex, lambda i, x: x["e"] == "Scale" and x["kd"] not in (0, 10) and max(x["bh"]) > 0)), lambda x: x.__setitem__("kd", x["kd"] + 1)))
+    cases.append(("free Cont.bl[0] +1 (variant 5: run from the scaled start image)", "free", rnd.choice(idx(fr, lambda i, x: x["e"] == "Cont" and x["variant"] == 5)), bump("bl", 1)))
     cases.append(("free Step dropped", "free", rnd.choice(idx(fr, lambda i, x: x["e"] == "Step" and x["k"] == 2)), None))
     bad = 0
     for n, (name, mode, i, f) in enumerate(cases):
